@@ -1,9 +1,11 @@
 package main
 
 import (
+	"bytes"
 	"fmt"
 	"go/ast"
 	"go/parser"
+	"go/printer"
 	"go/token"
 	"os"
 	"path/filepath"
@@ -352,6 +354,76 @@ func genC01(repo string) (string, error) {
 		gs = append(gs, fmt.Sprintf("  (%q, %d, %d)", g.where, g.k, g.max))
 	}
 	sb.WriteString(strings.Join(gs, ",\n"))
-	sb.WriteString("\n]\n\nend Pangaea.Generated.C01\n")
+	sb.WriteString("\n]\n\n")
+	// ---- (c) single-value type assertions `x.(T)` (the ones that panic when the dynamic type differs)
+	asserts, err := uncheckedAssertions(repo)
+	if err != nil {
+		return "", err
+	}
+	sb.WriteString("/-- type assertions without the comma-ok form, outside type switches (file:function: expression) -/\n")
+	sb.WriteString("def uncheckedAssertions : List String := " + leanStrList(asserts) + "\n\nend Pangaea.Generated.C01\n")
 	return sb.String(), nil
+}
+
+func uncheckedAssertions(repo string) ([]string, error) {
+	fset := token.NewFileSet()
+	seen := map[string]bool{}
+	out := []string{}
+	for _, pkg := range []string{"object", "props", "evaluator", "di", "runscript", "parser", "props/modules"} {
+		ents, err := os.ReadDir(filepath.Join(repo, pkg))
+		if err != nil {
+			return nil, err
+		}
+		for _, e := range ents {
+			if e.IsDir() || !strings.HasSuffix(e.Name(), ".go") || strings.HasSuffix(e.Name(), "_test.go") || e.Name() == "y.go" || strings.HasPrefix(e.Name(), "verif_") {
+				continue
+			}
+			f, err := parser.ParseFile(fset, filepath.Join(repo, pkg, e.Name()), nil, 0)
+			if err != nil {
+				return nil, err
+			}
+			for _, d := range f.Decls {
+				fd, ok := d.(*ast.FuncDecl)
+				if !ok || fd.Body == nil {
+					continue
+				}
+				checked := map[*ast.TypeAssertExpr]bool{}
+				ast.Inspect(fd.Body, func(n ast.Node) bool {
+					switch v := n.(type) {
+					case *ast.AssignStmt:
+						if len(v.Lhs) == 2 && len(v.Rhs) == 1 {
+							if ta, ok := v.Rhs[0].(*ast.TypeAssertExpr); ok {
+								checked[ta] = true
+							}
+						}
+					case *ast.ValueSpec:
+						if len(v.Names) == 2 && len(v.Values) == 1 {
+							if ta, ok := v.Values[0].(*ast.TypeAssertExpr); ok {
+								checked[ta] = true
+							}
+						}
+					}
+					return true
+				})
+				ast.Inspect(fd.Body, func(n ast.Node) bool {
+					if ta, ok := n.(*ast.TypeAssertExpr); ok && !checked[ta] && ta.Type != nil {
+						s := fmt.Sprintf("%s/%s:%s: %s", pkg, e.Name(), fd.Name.Name, exprStr(fset, ta))
+						if !seen[s] {
+							seen[s] = true
+							out = append(out, s)
+						}
+					}
+					return true
+				})
+			}
+		}
+	}
+	sort.Strings(out)
+	return out, nil
+}
+
+func exprStr(fset *token.FileSet, n ast.Node) string {
+	var buf bytes.Buffer
+	printer.Fprint(&buf, fset, n)
+	return strings.Join(strings.Fields(buf.String()), " ")
 }
